@@ -137,6 +137,16 @@ func runIntro(file []byte, foreign bool) {
 				emit(event{"ev": "HarnessError", "detail": "intro: independent page walk failed: " + werr.Error()})
 				return
 			}
+			// PageHeadersAtOffset(r, offset, n) - and PageHeaders through it - lists the pages from offset until n values are
+			// covered: value-less pages behind the last value of a chunk are not part of the answer
+			var cum int64
+			for k, rp := range part {
+				cum += int64(rp.Hdr.NumValues)
+				if cum >= ch.NumValues {
+					part = part[:k+1]
+					break
+				}
+			}
 			raw = append(raw, part...)
 		}
 	}
